@@ -8,37 +8,57 @@ From OV.Model Require Import Json Routing RoutingProofs.
 Import ListNotations.
 Local Open Scope string_scope.
 
+(* [handles h cname a n o s]: attribute lookup of the name n on an instance of cname finds, in class o, a method
+   that on(a, skip_schema_validation=s) registered -- alone (AOn) or stacked with after() (ABoth);
+   [follows h cname a n o]: likewise for after(a) (AAfter or ABoth). *)
 Theorem C15_on_is_resolved :
   forall h cname a n o s,
-    resolve (depth_fuel h) h cname n = Some (o, AOn a s) ->
-    (forall n' o' s', resolve (depth_fuel h) h cname n' = Some (o', AOn a s') -> n' = n) ->
+    handles h cname a n o s ->
+    (forall n' o' s', handles h cname a n' o' s' -> n' = n) ->
     e_on (route_entry h cname a) = Some (o, n, s).
-Proof. exact route_on_is_resolved. Qed.
+Proof. exact route_on_handles. Qed.
 Print Assumptions C15_on_is_resolved.
 
 (* no decorated method resolves for the action (never decorated, or overridden by an undecorated
    method, a plain attribute or a property): no route *)
 Theorem C15_on_absent :
   forall h cname a,
-    (forall n o s, resolve (depth_fuel h) h cname n <> Some (o, AOn a s)) ->
+    (forall n o s, ~ handles h cname a n o s) ->
     e_on (route_entry h cname a) = None.
-Proof. exact route_on_absent. Qed.
+Proof. exact route_on_none. Qed.
 Print Assumptions C15_on_absent.
 
 Theorem C15_after_is_resolved :
   forall h cname a n o,
-    resolve (depth_fuel h) h cname n = Some (o, AAfter a) ->
-    (forall n' o', resolve (depth_fuel h) h cname n' = Some (o', AAfter a) -> n' = n) ->
+    follows h cname a n o ->
+    (forall n' o', follows h cname a n' o' -> n' = n) ->
     e_after (route_entry h cname a) = Some (o, n).
-Proof. exact route_after_is_resolved. Qed.
+Proof. exact route_after_follows. Qed.
 Print Assumptions C15_after_is_resolved.
 
 Theorem C15_after_absent :
   forall h cname a,
-    (forall n o, resolve (depth_fuel h) h cname n <> Some (o, AAfter a)) ->
+    (forall n o, ~ follows h cname a n o) ->
     e_after (route_entry h cname a) = None.
-Proof. exact route_after_absent. Qed.
+Proof. exact route_after_none. Qed.
 Print Assumptions C15_after_absent.
+
+(* the two predicates say what they are meant to say *)
+Theorem C15_handles_spelled_out :
+  forall h cname a n o s,
+    handles h cname a n o s <->
+    (resolve (depth_fuel h) h cname n = Some (o, AOn a s) \/
+     exists a2, resolve (depth_fuel h) h cname n = Some (o, ABoth a s a2)).
+Proof. exact handles_iff. Qed.
+Print Assumptions C15_handles_spelled_out.
+
+Theorem C15_follows_spelled_out :
+  forall h cname a n o,
+    follows h cname a n o <->
+    (resolve (depth_fuel h) h cname n = Some (o, AAfter a) \/
+     exists a1 s, resolve (depth_fuel h) h cname n = Some (o, ABoth a1 s a)).
+Proof. exact follows_iff. Qed.
+Print Assumptions C15_follows_spelled_out.
 
 (* building the map evaluates no property *)
 Theorem C15_no_getters : forall h cname, getters_evaluated h cname = [].
@@ -57,4 +77,16 @@ Example C15_example :
   route_entry h "Leaf" "Heartbeat" = mkEntry None (Some ("Base", "after_hb")) /\
   route_entry h "Mid" "Heartbeat" = mkEntry (Some ("Base", "on_hb", true)) (Some ("Base", "after_hb")) /\
   route_entry h "Unrelated" "BootNotification" = no_entry.
+Proof. vm_compute. repeat split; reflexivity. Qed.
+
+(* one method carrying both decorators (either stacking order): handler of its on()-action with that flag, hook of
+   its after()-action; inherited; and replaced by a subclass's plain override *)
+Example C15_example_stacked :
+  let h := [mkRC "Base" None [("both", ABoth "Reset" true "Heartbeat"); ("other", AOn "ClearCache" false)];
+            mkRC "Child" (Some "Base") [];
+            mkRC "Plain" (Some "Base") [("both", APlain)]] in
+  route_entry h "Child" "Reset" = mkEntry (Some ("Base", "both", true)) None /\
+  route_entry h "Child" "Heartbeat" = mkEntry None (Some ("Base", "both")) /\
+  route_entry h "Child" "ClearCache" = mkEntry (Some ("Base", "other", false)) None /\
+  route_entry h "Plain" "Reset" = no_entry /\ route_entry h "Plain" "Heartbeat" = no_entry.
 Proof. vm_compute. repeat split; reflexivity. Qed.
